@@ -234,19 +234,20 @@ func (e *nilEngine) analyse(d *declInfo) {
 }
 
 type nilWalker struct {
-	e        *nilEngine
-	d        *declInfo
-	sum      *nilSummary
-	record   bool
-	params   map[types.Object]int // parameter objects → index (receiver 0)
-	defs     map[types.Object]ast.Expr
-	nodefs   map[types.Object]bool // `var x *T` without value
-	multi    map[types.Object][]ast.Expr
-	rangeV   map[types.Object]ast.Expr // range value variable → ranged expression
-	resErr   int                       // index of the error result or -1
-	nres     int
-	named    []types.Object
-	onReturn func(rs *ast.ReturnStmt, f *facts)
+	e         *nilEngine
+	d         *declInfo
+	sum       *nilSummary
+	record    bool
+	params    map[types.Object]int // parameter objects → index (receiver 0)
+	defs      map[types.Object]ast.Expr
+	nodefs    map[types.Object]bool // `var x *T` without value
+	multi     map[types.Object][]ast.Expr
+	rangeV    map[types.Object]ast.Expr // range value variable → ranged expression
+	resErr    int                       // index of the error result or -1
+	nres      int
+	named     []types.Object
+	onReturn  func(rs *ast.ReturnStmt, f *facts)
+	okLookups map[types.Object][]string // ok variable of `v, ok := m[k]` → paths known non-nil when ok
 }
 
 // definedNonNil: e is a local whose every definition is a non-nil construction.
@@ -776,6 +777,23 @@ func (w *nilWalker) stmt(s ast.Stmt, f *facts) (*facts, bool) {
 		for _, l := range x.Lhs {
 			w.lhs(l, f)
 		}
+		if len(x.Lhs) == 2 && len(x.Rhs) == 1 {
+			if ix, isIx := x.Rhs[0].(*ast.IndexExpr); isIx {
+				if okObj := objOf(w.d.pkg, x.Lhs[1]); okObj != nil {
+					if w.okLookups == nil {
+						w.okLookups = map[types.Object][]string{}
+					}
+					var ps []string
+					if p := w.rawPath(x.Lhs[0]); p != "" && p != "_" {
+						ps = append(ps, p)
+					}
+					if p := w.path(ix); p != "" {
+						ps = append(ps, p)
+					}
+					w.okLookups[okObj] = ps
+				}
+			}
+		}
 		f = f.clone()
 		for i, l := range x.Lhs {
 			if p := w.rawPath(l); p != "" {
@@ -1140,6 +1158,15 @@ func (w *nilWalker) cond(e ast.Expr, f *facts) (*facts, *facts) {
 				return t, fl
 			}
 			return f, f
+		}
+	}
+	if id, ok := e.(*ast.Ident); ok {
+		if ps, ok := w.okLookups[objOf(w.d.pkg, id)]; ok {
+			t := f.clone()
+			for _, p := range ps {
+				t.nonnil[p] = true
+			}
+			return t, f
 		}
 	}
 	w.expr(e, f)
